@@ -49,6 +49,7 @@ type Ctx struct {
 	addrTk      map[*ssa.Function]bool
 	escCache    map[string][]escLine
 	thorough    bool
+	gwMemo      map[*ssa.Global]bool
 	poolNewFns  []*ssa.Function // New functions of the sync.Pools met by rule E2 (filled by poolNewType)
 }
 
